@@ -74,6 +74,16 @@ func (t *Tracer) Emit(e Event, nontrivial bool) {
 		fmt.Fprintln(os.Stderr, "marshal:", err)
 		os.Exit(2)
 	}
+	if len(b) > 40<<20 {
+		// no driver asks for a result of this size: the call returned far more than any correct answer holds.
+		// Recorded as such (the specification accepts no event with a non-empty `bad`), not shipped entry by entry.
+		e.Bad = fmt.Sprintf("the recorded result is %d MB large - far beyond anything this call can correctly return", len(b)>>20)
+		e.R = []any{}
+		if b, err = json.Marshal(e); err != nil {
+			fmt.Fprintln(os.Stderr, "marshal:", err)
+			os.Exit(2)
+		}
+	}
 	// a nil slice stands for an empty list (TLC's Json module rejects null)
 	b = bytes.ReplaceAll(b, []byte(":null"), []byte(":[]"))
 	b = bytes.ReplaceAll(b, []byte("[null"), []byte("[[]"))
